@@ -6,15 +6,23 @@ subset: let / let-else on Option / local const / assignment / compound assignmen
 if-let / match on Option or a field-less enum / return / atomic store+load as field write/read /
 calls to already translated functions / `use` and logging macros skipped; f64 values as Coq
 primitive floats with the Rust f64 primitives of Model/Select.v) and symbolically executed into ONE Coq
-expression; the result is written to coq/Gen/Leaf.v as
+expression; the result is written to coq/Gen/Leaf<Group>.v (GROUP table) as
 
     Definition leaf_<name> (<self fields read> <params>) : <result> := ...
 
 where the result is the return value, or the tuple of final values of everything the
-function assigns (plus the return value last).  Proofs/LeafP.v proves each generated
+function assigns (plus the return value last).  Proofs/Leaf<Group>P.v proves each generated
 definition equal to the hand-written model function the property theorems are about, so an
-edit of the Rust function changes Gen/Leaf.v and breaks a named equivalence obligation at
+edit of the Rust function changes Gen/Leaf<Group>.v and breaks a named equivalence obligation at
 once, before any generated input has to find it.
+
+Semantics written out: u64/i32 `saturating_*` by the sat_* / ssub operators of Model/Base.v, `min`/`max`
+by Z.min/Z.max, signed and unsigned `/` by Z.quot (equal to `/` on non-negative operands), `clamp`
+by Base.clamp plus its assertion, `as` between integer types only where the value is unchanged,
+`as` between f64 and integers by Select.f64_as_u64 / f64_as_i32 / f64_of_i32 / f64_of_u64, f64
+comparisons by PrimFloat.ltb/leb/eqb (false on NaN, like Rust), `f64::max/min` by Select.f64_max/min.
+Plain `+ - *` are the mathematical operations: an overflow (a debug-build panic) is not modelled
+here; the hand models that care carry their own overflow flag.
 
 A function that cannot be translated (syntax outside the subset, missing) is reported in the
 JSON summary under "failed"; check.py treats that like a broken obligation.
